@@ -767,8 +767,11 @@ impl Connection<B> for HConn {
         }
     }
     fn version(&self) -> http::Version {
-        if self.w.lock().unwrap().conns[self.id].h2 {
+        let w = self.w.lock().unwrap();
+        if w.conns[self.id].h2 {
             http::Version::HTTP_2
+        } else if w.cfg.conn_version_10 {
+            http::Version::HTTP_10
         } else {
             http::Version::HTTP_11
         }
@@ -1159,6 +1162,10 @@ pub struct PoolCfg {
     /// 2: outside any runtime
     #[serde(default)]
     pub built_on: u8,
+    /// single-use connections report HTTP/1.0 as their version (a legal `Connection`): nothing about
+    /// readiness or pooling depends on it
+    #[serde(default)]
+    pub conn_version_10: bool,
 }
 fn yes() -> bool {
     true
@@ -2553,7 +2560,7 @@ pub fn corpus_mutation_strategy(seeds: Vec<PoolCase>, wt: Weights) -> impl Strat
         prop_oneof![3 => Just(None), 1 => cfg_any_strategy().prop_map(Some)],
     )
         .prop_map(move |(i, edits, cfg)| {
-            let mut case = seeds.get(i).cloned().unwrap_or(PoolCase { cfg: PoolCfg { idle_timeout_ms: None, max_idle: 32, cont: true, req_timeout_ms: None, open_is_ready: true, caller_host: 0, single_use: false, holder_polls_ready: false, ready_hides_close: false, build_path: 0, fused_attempts: false, coarse_key: false, built_on: 0 }, ops: vec![] });
+            let mut case = seeds.get(i).cloned().unwrap_or(PoolCase { cfg: PoolCfg { idle_timeout_ms: None, max_idle: 32, cont: true, req_timeout_ms: None, open_is_ready: true, caller_host: 0, single_use: false, holder_polls_ready: false, ready_hides_close: false, build_path: 0, fused_attempts: false, coarse_key: false, built_on: 0, conn_version_10: false }, ops: vec![] });
             for (kind, pos, op) in edits {
                 let len = case.ops.len();
                 let at = if len == 0 { 0 } else { pos as usize * len >> 16 };
@@ -2613,6 +2620,7 @@ pub fn cfg_plain_strategy() -> impl Strategy<Value = PoolCfg> {
         fused_attempts,
         coarse_key: false,
         built_on: 0,
+        conn_version_10: false,
     })
 }
 
@@ -2631,6 +2639,7 @@ pub fn cfg_timeout_strategy() -> impl Strategy<Value = PoolCfg> {
         fused_attempts: false,
         coarse_key: false,
         built_on: 0,
+        conn_version_10: false,
     })
 }
 
@@ -2649,6 +2658,7 @@ pub fn cfg_expiry_strategy() -> impl Strategy<Value = PoolCfg> {
         fused_attempts: false,
         coarse_key: false,
         built_on: 0,
+        conn_version_10: false,
     })
 }
 
@@ -2695,7 +2705,7 @@ pub fn expiry_scenario_strategy() -> impl Strategy<Value = PoolCase> {
             for j in 0..probes {
                 ops.push(Op::Poll(((j * 65536) / probes) as u16 + 1));
             }
-            PoolCase { cfg: PoolCfg { idle_timeout_ms: timeout, max_idle: 32, cont, req_timeout_ms: None, open_is_ready: true, caller_host: 0, single_use: false, holder_polls_ready: false, ready_hides_close: false, build_path: 0, fused_attempts: false, coarse_key: false, built_on: 0 }, ops }
+            PoolCase { cfg: PoolCfg { idle_timeout_ms: timeout, max_idle: 32, cont, req_timeout_ms: None, open_is_ready: true, caller_host: 0, single_use: false, holder_polls_ready: false, ready_hides_close: false, build_path: 0, fused_attempts: false, coarse_key: false, built_on: 0, conn_version_10: false }, ops }
         })
 }
 
@@ -2726,7 +2736,7 @@ pub fn expiry_whole_second_strategy() -> impl Strategy<Value = PoolCase> {
         for j in 0..probes {
             ops.push(Op::Poll(((j * 65536) / probes) as u16 + 1));
         }
-        PoolCase { cfg: PoolCfg { idle_timeout_ms: timeout, max_idle: 32, cont, req_timeout_ms: None, open_is_ready, caller_host: 0, single_use: false, holder_polls_ready: false, ready_hides_close: false, build_path: 0, fused_attempts: false, coarse_key: false, built_on: 0 }, ops }
+        PoolCase { cfg: PoolCfg { idle_timeout_ms: timeout, max_idle: 32, cont, req_timeout_ms: None, open_is_ready, caller_host: 0, single_use: false, holder_polls_ready: false, ready_hides_close: false, build_path: 0, fused_attempts: false, coarse_key: false, built_on: 0, conn_version_10: false }, ops }
     })
 }
 
@@ -2752,7 +2762,7 @@ pub fn many_origins_strategy(max_ops: usize) -> impl Strategy<Value = PoolCase> 
     )
         .prop_map(|(n, mut ops, cont)| {
             ops.insert(0, Op::Sweep { n });
-            PoolCase { cfg: PoolCfg { idle_timeout_ms: None, max_idle: 32, cont, req_timeout_ms: None, open_is_ready: true, caller_host: 0, single_use: false, holder_polls_ready: false, ready_hides_close: false, build_path: 0, fused_attempts: false, coarse_key: false, built_on: 0 }, ops }
+            PoolCase { cfg: PoolCfg { idle_timeout_ms: None, max_idle: 32, cont, req_timeout_ms: None, open_is_ready: true, caller_host: 0, single_use: false, holder_polls_ready: false, ready_hides_close: false, build_path: 0, fused_attempts: false, coarse_key: false, built_on: 0, conn_version_10: false }, ops }
         })
 }
 
@@ -2782,7 +2792,7 @@ pub fn many_origins_mid_strategy(max_ops: usize) -> impl Strategy<Value = PoolCa
         .prop_map(|(n, mut before, after, cont, max_idle)| {
             before.push(Op::Sweep { n });
             before.extend(after);
-            PoolCase { cfg: PoolCfg { idle_timeout_ms: None, max_idle, cont, req_timeout_ms: None, open_is_ready: true, caller_host: 0, single_use: false, holder_polls_ready: false, ready_hides_close: false, build_path: 0, fused_attempts: false, coarse_key: false, built_on: 0 }, ops: before }
+            PoolCase { cfg: PoolCfg { idle_timeout_ms: None, max_idle, cont, req_timeout_ms: None, open_is_ready: true, caller_host: 0, single_use: false, holder_polls_ready: false, ready_hides_close: false, build_path: 0, fused_attempts: false, coarse_key: false, built_on: 0, conn_version_10: false }, ops: before }
         })
 }
 
@@ -2831,7 +2841,7 @@ pub fn near_origins_strategy(wt: Weights, max_ops: usize) -> impl Strategy<Value
 /// combination in which a released-but-busy connection, a closed idle entry and the idle bound meet.
 pub fn cfg_small_idle_strategy() -> impl Strategy<Value = PoolCfg> {
     (prop_oneof![Just(None), Just(Some(0u64)), Just(Some(3_600_000u64))], prop_oneof![Just(1usize), Just(2)], any::<bool>(), prop_oneof![1 => Just(true), 3 => Just(false)], any::<bool>())
-        .prop_map(|(t, m, cont, open_is_ready, holder_polls_ready)| PoolCfg { idle_timeout_ms: t, max_idle: m, cont, req_timeout_ms: None, open_is_ready, caller_host: 0, single_use: false, holder_polls_ready, ready_hides_close: false, build_path: 0, fused_attempts: false, coarse_key: false, built_on: 0 })
+        .prop_map(|(t, m, cont, open_is_ready, holder_polls_ready)| PoolCfg { idle_timeout_ms: t, max_idle: m, cont, req_timeout_ms: None, open_is_ready, caller_host: 0, single_use: false, holder_polls_ready, ready_hides_close: false, build_path: 0, fused_attempts: false, coarse_key: false, built_on: 0, conn_version_10: false })
 }
 
 pub fn cfg_any_strategy() -> impl Strategy<Value = PoolCfg> {
@@ -2846,7 +2856,7 @@ pub fn cfg_any_strategy() -> impl Strategy<Value = PoolCfg> {
         prop_oneof![2 => Just(false), 1 => Just(true)],
         prop_oneof![4 => Just(0u8), 1 => Just(1u8), 1 => Just(2u8)],
     )
-        .prop_map(|(t, m, cont, open_is_ready, holder_polls_ready, ready_hides_close, build_path, fused_attempts, built_on)| PoolCfg { idle_timeout_ms: t, max_idle: m, cont, req_timeout_ms: None, open_is_ready, caller_host: 0, single_use: false, holder_polls_ready, ready_hides_close, build_path, fused_attempts, coarse_key: false, built_on })
+        .prop_map(|(t, m, cont, open_is_ready, holder_polls_ready, ready_hides_close, build_path, fused_attempts, built_on)| PoolCfg { idle_timeout_ms: t, max_idle: m, cont, req_timeout_ms: None, open_is_ready, caller_host: 0, single_use: false, holder_polls_ready, ready_hides_close, build_path, fused_attempts, coarse_key: false, built_on, conn_version_10: built_on == 0 && build_path % 3 == 1 })
 }
 
 // ------------------------------------------------------------------------------------------------
